@@ -62,7 +62,7 @@ def sigModeOf? : String → Option SigMode
 
 /-! `repo cand <crlIssuer> <aki> <alg r|e> <signerKey> <chains> <trusted>` — candidate selection and acceptance (C04).
 aki: `-` or `kid=<n|->;ser=<n|->;iss=<n|->`; chains: chains separated by `/`, certificates by `,` (or `-`);
-certificate: `key:subject:issuer:serial:ski|-:r|e:-|1|0`. Answer: `accepted key=<k> origin=<trusted|chainP>` | `rejected`. -/
+certificate: `key:subject:issuer:serial:ski|-:r|e:-|1|0`. Answer: `accepted key=<k> origin=<trusted|chainP>` | `rejected` | `panic` (the candidate search panicked). -/
 def optNat (s : String) : Option (Option Nat) := if s = "-" then some none else s.toNat?.map some
 def optInt (s : String) : Option (Option Int) := if s = "-" then some none else s.toInt?.map some
 def algOf? (s : String) : Option KeyAlg := if s = "r" then some .rsa else if s = "e" then some .ecdsa else none
@@ -103,10 +103,11 @@ def stepCand (ws : List String) : String :=
         parseCertList trusted with
     | some i, some a, some al, some k, some chs, some tr =>
       match Cand.verifyCRL (fun x => x == k) i a al chs tr with
-      | some av =>
+      | .accepted av =>
         let o := match av.origin with | .trusted => "trusted" | .chain p => s!"chain{p}"
         s!"accepted key={av.cert.key} origin={o}"
-      | none => "rejected"
+      | .rejected => "rejected"
+      | .panic => "panic"
     | _, _, _, _, _, _ => "bad-op"
   | _ => "bad-op"
 
